@@ -14,7 +14,8 @@ Clone isolation has no content in a pure model (states are values; `Op.run` retu
 cannot change the old one); what the Rust code adds (manual `Clone` of the tree items, `Arc`ed
 regexes replaced by `cache`) is validated by the correspondence harness `c02` only.
 -/
-import RioModel.Proofs.RouterTrace
+import RioModel.Proofs.RouterTreeTop
+import RioModel.Props.C08
 import RioModel.Model.RouterParse
 set_option linter.unusedSimpArgs false
 
@@ -171,6 +172,108 @@ anywhere in the tower underflows (the model's truncated subtraction is never tru
 theorem count_no_underflow (E : Env) (S : Router E) (L : List Route) (id : String) (h : RRepr E S L)
     (hs : ((towerOps E).remove id S.matcher).2.isSome = true) : 0 < (towerOps E).len S.matcher :=
   (towerLaws E).remove_pos _ _ id h.matcher hs
+
+/-! ### The same statements with the two regex trees modelled as trees (composition with C08)
+
+`runOpsG (towerTOps T)` runs the history on the router whose `regex_tree_rule`s are the radix-tree
+model of Model/Tree.lean: `remove` / `batch_remove` go through `Item.remove` / `Item.retain` (leaf
+removal, node collapse, `Empty(ignore_case)`), insertion through `Item.insert` / `get_mut`.  Extra
+hypothesis: the marker patterns of every inserted rule render into a domain `Good` on which the
+engine is prefix-sound (C08); for `engineOf G` that is `GoodPat` (`run_equiv_tree_rule`). -/
+
+/-- the routes an operation inserts -/
+def opRoutes : Op → List Route
+  | .insert r => [r]
+  | .changeSet a u _ => u ++ a
+  | _ => []
+
+open Rio.Regex Rio.Tree in
+theorem repr_op_tree (T : TEnv) (Good : List Char → Prop) (hPS : PrefixSound T.engine Good)
+    (S : RouterT T) (L : List Route) (op : Op) (h : RReprT T Good hPS S L) (hv : op.Valid L)
+    (hg : ∀ r ∈ opRoutes op, TreeGood T Good r) :
+    RReprT T Good hPS (op.runG (towerTOps T) S) (op.live L) := by
+  have hT := towerTSpec T Good hPS
+  cases op with
+  | insert r => exact g_insert T.env _ hT S L r h hv (hg r (by simp [opRoutes]))
+  | remove id => exact g_remove T.env _ hT S L id h
+  | batchRemove ids => exact g_batch T.env _ hT S L ids h
+  | changeSet a u d => exact g_changeSet T.env _ hT S L a u d h hv hg
+  | cache n => exact h
+
+open Rio.Regex Rio.Tree in
+theorem repr_run_tree (T : TEnv) (Good : List Char → Prop) (hPS : PrefixSound T.engine Good)
+    (h : List Op) : ∀ (S : RouterT T) (L : List Route), RReprT T Good hPS S L → ValidHistory h L →
+    (∀ op ∈ h, ∀ r ∈ opRoutes op, TreeGood T Good r) →
+    RReprT T Good hPS (runOpsG (towerTOps T) h S) (liveOps h L) := by
+  induction h with
+  | nil => intro S L hr _ _; exact hr
+  | cons op h ih =>
+    intro S L hr hv hg
+    exact ih _ _ (repr_op_tree T Good hPS S L op hr hv.1 (hg op (List.mem_cons_self ..))) hv.2
+      (fun op' hop' => hg op' (List.mem_cons_of_mem _ hop'))
+
+open Rio.Regex Rio.Tree in
+/-- **C02 over the real trees**: after every prefix of a valid history whose inserted rules have
+marker patterns in the domain, the incrementally updated router answers as a router built from
+scratch from the live rules, and its size is their number. -/
+theorem run_equiv_tree (T : TEnv) (Good : List Char → Prop) (hPS : PrefixSound T.engine Good)
+    (h : List Op) (hv : ValidHistory h []) (hg : ∀ op ∈ h, ∀ r ∈ opRoutes op, TreeGood T Good r)
+    (h' : List Op) (hp : h' <+: h) (q : Req) :
+    (RouterG.matchReq (towerTOps T) (runOpsG (towerTOps T) h' (RouterG.empty _)) q).Perm
+        (RouterG.matchReq (towerTOps T) (RouterG.build (towerTOps T) (liveOps h' [])) q) ∧
+      RouterG.len (towerTOps T) (runOpsG (towerTOps T) h' (RouterG.empty _)) = (liveOps h' []).length := by
+  have hT := towerTSpec T Good hPS
+  obtain ⟨t, ht⟩ := hp
+  have hv' : ValidHistory h' [] := valid_prefix h' t [] (ht ▸ hv)
+  have hg' : ∀ op ∈ h', ∀ r ∈ opRoutes op, TreeGood T Good r :=
+    fun op hop => hg op (ht ▸ List.mem_append_left _ hop)
+  have hr := repr_run_tree T Good hPS h' (RouterG.empty _) [] (g_empty T.env _ hT) hv' hg'
+  -- every live route was inserted by the history, hence is in the domain
+  have hlive : ∀ (h : List Op) (L : List Route), (∀ r ∈ L, TreeGood T Good r) →
+      (∀ op ∈ h, ∀ r ∈ opRoutes op, TreeGood T Good r) → ∀ r ∈ liveOps h L, TreeGood T Good r := by
+    intro h
+    induction h with
+    | nil => intro L hL _ r hr; exact hL r hr
+    | cons op h ih =>
+      intro L hL hg r hr
+      apply ih (op.live L) _ (fun op' hop' => hg op' (List.mem_cons_of_mem _ hop')) r hr
+      intro x hx
+      have hop := hg op (List.mem_cons_self ..)
+      cases op with
+      | insert r0 =>
+        rcases List.mem_cons.mp hx with hx | hx
+        · exact hx ▸ hop r0 (by simp [opRoutes])
+        · exact hL x hx
+      | remove id => exact hL x (List.mem_filter.mp hx).1
+      | batchRemove ids => exact hL x (List.mem_filter.mp hx).1
+      | changeSet a u d =>
+        simp only [Op.live, liveChangeSet, insertAll_eq, List.mem_append, List.mem_reverse] at hx
+        rcases hx with hx | hx | hx
+        · exact hop x (by simp [opRoutes, hx])
+        · exact hop x (by simp [opRoutes, hx])
+        · exact hL x (List.mem_filter.mp hx).1
+      | cache n => exact hL x hx
+  have hb := g_build T.env _ hT (liveOps h' []) hr.ids
+    (hlive h' [] (by intro r hr; simp at hr) hg')
+  exact ⟨g_match_perm T.env _ hT _ _ _ _ hr hb (fun x => List.mem_reverse.symm) q,
+    g_len T.env _ hT _ _ hr⟩
+
+open Rio.Regex Rio.Tree in
+/-- For the engines `engineOf G` and rule-shaped marker patterns. -/
+theorem run_equiv_tree_rule (T : TEnv) (G : List Char → Option Re) (hE : T.engine = engineOf G)
+    (h : List Op) (hv : ValidHistory h []) (hg : ∀ op ∈ h, ∀ r ∈ opRoutes op, TreeGood T GoodPat r)
+    (h' : List Op) (hp : h' <+: h) (q : Req) :
+    (RouterG.matchReq (towerTOps T) (runOpsG (towerTOps T) h' (RouterG.empty _)) q).Perm
+        (RouterG.matchReq (towerTOps T) (RouterG.build (towerTOps T) (liveOps h' [])) q) ∧
+      RouterG.len (towerTOps T) (runOpsG (towerTOps T) h' (RouterG.empty _)) = (liveOps h' []).length :=
+  run_equiv_tree T GoodPat (hE ▸ Rio.C08.prefix_sound G) h hv hg h' hp q
+
+open Rio.Regex Rio.Tree in
+/-- a removed rule is returned by the removal, over the real trees -/
+theorem remove_returns_tree (T : TEnv) (Good : List Char → Prop) (hPS : PrefixSound T.engine Good)
+    (S : RouterT T) (L : List Route) (r : Route) (h : RReprT T Good hPS S L) (hr : r ∈ L)
+    (hwf : WFRoute r) : (RouterG.remove (towerTOps T) r.id S).2 = some r :=
+  g_remove_some T.env _ (towerTSpec T Good hPS) S L r h hr hwf
 
 /-! ### Non-vacuity: a concrete valid history with a removal, a batch removal and a change-set -/
 
